@@ -895,6 +895,13 @@ vp('C16', 'fire', 'seeded/C16-plumb-line-term-in-one-place/patch.diff', 'round-8
 vp('C18', 'fire', 'seeded/C18-index-blind-interpolation/patch.diff', 'round-8 seed C18: resampling interpolates by position, not over the index')
 vp('C19', 'fire', 'seeded/C19-posterior-written-into-x/patch.diff', 'round-8 seed C19: kalman.correct writes the posterior into its argument x')
 
+# survey, exit-2-only mutants of propagate_errors turned into findings
+v('C04', 'fire', 'error_model.py', 'Phi = 0.5 * (Fi[1:] + Fi[:-1]) * dt.reshape(-1, 1, 1)', 'Phi = 0.5 * (Fi[1:] + Fi[:-1]) * -dt.reshape(-1, 1, 1)', 'transition over the negated step')
+v('C04', 'fire', 'error_model.py', 'Phi = 0.5 * (Fi[1:] + Fi[:-1]) * dt.reshape(-1, 1, 1)', 'Phi = 0.5 * (Fi[1:] + Fi[:-1]) / dt.reshape(-1, 1, 1)', 'transition divided by the step')
+v('C04', 'fire', 'error_model.py', 'delta_sensor[i] * dt[i]', 'delta_sensor[i] / dt[i]', 'forcing divided by the step')
+v('C04', 'fire', 'error_model.py', '    x[0] = x0\n', '    x[1] = x0\n', 'initial error stored into row 1')
+v('C04', 'silent', 'error_model.py', 'Phi = 0.5 * (Fi[1:] + Fi[:-1]) * dt.reshape(-1, 1, 1)', 'Phi = -0.5 * (Fi[1:] + Fi[:-1]) * -dt.reshape(-1, 1, 1)', 'two sign changes cancel')
+
 
 # ---------------------------------------------------------------- refactorings (fifth session)
 # Behaviour-preserving refactorings written by sub-agents that saw nothing of /verif (each comes
